@@ -113,6 +113,11 @@ pub const ELEM_CLASSES: &[NameClass] = &[
             "averyveryveryverylongelementnamethatgoesonandonandonandonandonandonX2",
             "длинноеимяэлементакотороепродолжаетсяипродолжаетсяипродолжается",
             "long-name-with-many-parts-and-separators.that-exceeds.sixty-four_bytes_easily",
+            // beyond 128, 255 and 1024 bytes (length bytes, inline buffers, fixed-size caches)
+            "n130_abcdefghijabcdefghijabcdefghijabcdefghijabcdefghijabcdefghijabcdefghijabcdefghijabcdefghijabcdefghijabcdefghijabcdefghijabcdefghij",
+            "L260x1y2z3w4v5x1y2z3w4v5x1y2z3w4v5x1y2z3w4v5x1y2z3w4v5x1y2z3w4v5x1y2z3w4v5x1y2z3w4v5x1y2z3w4v5x1y2z3w4v5x1y2z3w4v5x1y2z3w4v5x1y2z3w4v5x1y2z3w4v5x1y2z3w4v5x1y2z3w4v5x1y2z3w4v5x1y2z3w4v5x1y2z3w4v5x1y2z3w4v5x1y2z3w4v5x1y2z3w4v5x1y2z3w4v5x1y2z3w4v5x1y2z3w4v5x1y2z3w4v5End",
+            "éééééééééééééééééééééééééééééééééééééééééééééééééééééééééééééééééééééééééééééééééééééééééééééééééééééééééééééééééééééééééééééééééééééééééééééééééééééé",
+            "k01234567890123456789012345678901234567890123456789012345678901234567890123456789012345678901234567890123456789012345678901234567890123456789012345678901234567890123456789012345678901234567890123456789012345678901234567890123456789012345678901234567890123456789012345678901234567890123456789012345678901234567890123456789012345678901234567890123456789012345678901234567890123456789012345678901234567890123456789012345678901234567890123456789012345678901234567890123456789012345678901234567890123456789012345678901234567890123456789012345678901234567890123456789012345678901234567890123456789012345678901234567890123456789012345678901234567890123456789012345678901234567890123456789012345678901234567890123456789012345678901234567890123456789012345678901234567890123456789012345678901234567890123456789012345678901234567890123456789012345678901234567890123456789012345678901234567890123456789012345678901234567890123456789012345678901234567890123456789012345678901234567890123456789012345678901234567890123456789012345678901234567890123456789012345678901234567890123456789012345678901234567890123456789",
         ],
     },
 ];
@@ -142,6 +147,9 @@ pub const ATTR_CLASSES: &[NameClass] = &[
             "averyveryveryverylongattributenamethatgoesonandonandonandonandonandonX1",
             "averyveryveryverylongattributenamethatgoesonandonandonandonandonandonX2",
             "оченьдлинноеимяатрибутакотороепродолжаетсяипродолжается",
+            "a130_abcdefghijabcdefghijabcdefghijabcdefghijabcdefghijabcdefghijabcdefghijabcdefghijabcdefghijabcdefghijabcdefghijabcdefghijabcdefghij",
+            "A260x1y2z3w4v5x1y2z3w4v5x1y2z3w4v5x1y2z3w4v5x1y2z3w4v5x1y2z3w4v5x1y2z3w4v5x1y2z3w4v5x1y2z3w4v5x1y2z3w4v5x1y2z3w4v5x1y2z3w4v5x1y2z3w4v5x1y2z3w4v5x1y2z3w4v5x1y2z3w4v5x1y2z3w4v5x1y2z3w4v5x1y2z3w4v5x1y2z3w4v5x1y2z3w4v5x1y2z3w4v5x1y2z3w4v5x1y2z3w4v5x1y2z3w4v5x1y2z3w4v5",
+            "q98765432109876543210987654321098765432109876543210987654321098765432109876543210987654321098765432109876543210987654321098765432109876543210987654321098765432109876543210987654321098765432109876543210987654321098765432109876543210987654321098765432109876543210987654321098765432109876543210987654321098765432109876543210987654321098765432109876543210987654321098765432109876543210987654321098765432109876543210987654321098765432109876543210987654321098765432109876543210987654321098765432109876543210987654321098765432109876543210987654321098765432109876543210987654321098765432109876543210987654321098765432109876543210987654321098765432109876543210987654321098765432109876543210987654321098765432109876543210987654321098765432109876543210987654321098765432109876543210987654321098765432109876543210987654321098765432109876543210987654321098765432109876543210987654321098765432109876543210987654321098765432109876543210987654321098765432109876543210987654321098765432109876543210987654321098765432109876543210987654321098765432109876543210987654321098765432109876543210987654321098765432109876543210",
         ],
     },
 ];
